@@ -2,9 +2,9 @@ SPECIFICATION Spec
 CONSTANTS
   VsCases <- NoCases
   SdCases <- NoCases
-  HlCases <- HlSet
+  HlCases <- NoCases
   BtCases <- NoCases
-  CpCases <- NoCases
+  CpCases <- CpSet
   MaxOps = 2
   KeepHist = TRUE
 VIEW view
